@@ -28,13 +28,18 @@ Leaf(t, a, v, m) == Node(t, a, v, m, 0, NoE, NoE)
 Un(t, a, v, n, e) == Node(t, a, v, <<>>, n, e, NoE)
 Bin(t, e1, e2) == Node(t, CZero, <<>>, <<>>, 0, e1, e2)
 
-LeafKinds == {"id", "scale", "mat", "mulvec", "zero", "inner", "sq", "const", "shift", "l2sq", "l1", "smul", "swap", "rpart", "linfn"}
+\* Mixed fields (profile "M"): "VR" is the REAL space with the entries / weights of the complex space "V" (V.real_space);
+\* "cmod2" = ComplexModulusSquared : V -> VR, x |-> |x|^2 entry-wise (not complex-linear), "sqr" = x |-> x^2 on VR.  A scalar
+\* or vector operand has to lie in the field / space it is combined with: complex operands on the VR side are ill-typed.
+LeafKinds == {"id", "scale", "mat", "mulvec", "zero", "inner", "sq", "const", "shift", "l2sq", "l1", "smul", "swap", "rpart", "linfn",
+              "cmod2", "sqr"}
 LinearLeaves == {"id", "scale", "mat", "mulvec", "zero", "inner", "smul", "swap", "rpart", "linfn"}
 IsLeaf(e) == e.t \in LeafKinds
 
 (* -------------------------- typing ------------------------------------- *)
-LeafDom(t) == IF t = "smul" THEN "S" ELSE "V"
-LeafRan(t) == IF t \in {"inner", "l2sq", "l1", "linfn"} THEN "S" ELSE "V"
+LeafDom(t) == IF t = "smul" THEN "S" ELSE IF t = "sqr" THEN "VR" ELSE "V"
+LeafRan(t) == IF t \in {"inner", "l2sq", "l1", "linfn"} THEN "S" ELSE IF t \in {"cmod2", "sqr"} THEN "VR" ELSE "V"
+IsVecSp(s) == s \in {"V", "VR"}
 
 RECURSIVE Dom(_)
 Dom(e) == IF IsLeaf(e) THEN LeafDom(e.t)
@@ -56,7 +61,7 @@ IsLinear(e) ==
 \* polynomial degree bound (l1 is not polynomial: 99)
 RECURSIVE Deg(_)
 Deg(e) ==
-  IF IsLeaf(e) THEN (CASE e.t \in {"sq", "l2sq"} -> 2 [] e.t = "l1" -> 99
+  IF IsLeaf(e) THEN (CASE e.t \in {"sq", "l2sq", "cmod2", "sqr"} -> 2 [] e.t = "l1" -> 99
                        [] e.t \in {"const", "zero"} -> 0 [] OTHER -> 1)
   ELSE CASE e.t \in {"sum", "sub"} -> Max2(Deg(e.l), Deg(e.r))
          [] e.t = "comp" -> IF Deg(e.l) >= 99 \/ Deg(e.r) >= 99 THEN 99 ELSE Deg(e.l) * Deg(e.r)
@@ -88,6 +93,8 @@ LeafEval(e, x) ==
     [] e.t = "rpart"  -> x                       \* RealPart on a REAL space (returns its input object): identity
     [] e.t = "linfn"  -> <<WInner(x, e.v)>>       \* a linear FUNCTIONAL-class leaf x -> <x, v>
     [] e.t = "swap"   -> <<x[2], x[1]>>          \* a user-defined operator (in-place only, not alias-safe)
+    [] e.t = "cmod2"  -> [i \in 1..Len(x) |-> CR(CAbs2(x[i]))]
+    [] e.t = "sqr"    -> VMul(x, x)
 
 RECURSIVE Eval(_, _)
 RECURSIVE PowEval(_, _, _)
@@ -112,17 +119,20 @@ Eval(e, x) ==
          [] e.t = "pow"     -> PowEval(e.l, e.n, x)
 
 (* -------------------------- well-typedness ----------------------------- *)
-VecLenOf(s) == IF s = "V" THEN 2 ELSE 1
+VecLenOf(s) == IF IsVecSp(s) THEN 2 ELSE 1
 RECURSIVE WellTyped(_)
 WellTyped(e) ==
   IF IsLeaf(e) THEN TRUE
   ELSE /\ WellTyped(e.l)
        /\ CASE e.t \in {"sum", "sub"} -> WellTyped(e.r) /\ Dom(e.l) = Dom(e.r) /\ Ran(e.l) = Ran(e.r)
             [] e.t = "comp" -> WellTyped(e.r) /\ Ran(e.r) = Dom(e.l)
-            [] e.t = "rdiv" -> e.a # CZero
-            [] e.t \in {"lvec", "addvec", "raddvec", "rsubvec", "subvec"} -> Ran(e.l) = "V" /\ Len(e.v) = 2
+            [] e.t = "rdiv" -> e.a # CZero /\ (Dom(e.l) = "VR" => IsRealC(e.a))
+            [] e.t = "rscal" -> (Dom(e.l) = "VR" => IsRealC(e.a))
+            [] e.t \in {"lscal", "addscal"} -> (Ran(e.l) = "VR" => IsRealC(e.a))
+            [] e.t \in {"lvec", "addvec", "raddvec", "rsubvec", "subvec"} ->
+                 IsVecSp(Ran(e.l)) /\ Len(e.v) = 2 /\ (Ran(e.l) = "VR" => VIsReal(e.v))
             [] e.t = "flvm" -> Ran(e.l) = "S" /\ Len(e.v) = 2
-            [] e.t = "rvec" -> Dom(e.l) = "V" /\ Len(e.v) = 2
+            [] e.t = "rvec" -> IsVecSp(Dom(e.l)) /\ Len(e.v) = 2 /\ (Dom(e.l) = "VR" => VIsReal(e.v))
             [] e.t = "pow" -> Dom(e.l) = Ran(e.l) /\ e.n >= 1
             [] OTHER -> TRUE
 
@@ -151,14 +161,14 @@ Supported(e) ==
   IF IsLeaf(e) THEN TRUE
   ELSE /\ Supported(e.l)
        /\ (e.t \in {"sum", "sub", "comp"} => Supported(e.r))
-       /\ (e.t = "addscal" => (Ran(e.l) = "V" \/ IsFunctional(e.l)))
+       /\ (e.t = "addscal" => (IsVecSp(Ran(e.l)) \/ IsFunctional(e.l)))
 
 (* -------------------------- matrices and adjoints (C05) ---------------- *)
 Unit(n, j) == [i \in 1..n |-> IF i = j THEN COne ELSE CZero]
 \* matrix of a linear expression, row-major: Mat[i][j] = (e applied to e_j)[i]
 MatOf(e) == LET nd == VecLenOf(Dom(e)) nr == VecLenOf(Ran(e))
             IN [i \in 1..nr |-> [j \in 1..nd |-> Eval(e, Unit(nd, j))[i]]]
-WOf(s) == IF s = "V" THEN W ELSE <<QOne>>
+WOf(s) == IF IsVecSp(s) THEN W ELSE <<QOne>>
 \* reference adjoint: the unique N with <Ax,y>_ran = <x,Ny>_dom, i.e. N = Gd^-1 M^H Gr
 AdjMatOf(e) == LET M == MatOf(e) wd == WOf(Dom(e)) wr == WOf(Ran(e))
                    nd == VecLenOf(Dom(e)) nr == VecLenOf(Ran(e))
